@@ -471,10 +471,10 @@ impl Engine for SchedEngine {
         prop_oneof![1 => case_strategy(true), 1 => case_strategy(false)].boxed()
     }
     fn quick_cases(&self) -> usize {
-        4000
+        16_000
     }
     fn thorough_cases(&self) -> usize {
-        100_000
+        400_000
     }
     fn run(&self, case: &Self::Case) -> Outcome {
         crate::sim::install_panic_hook();
